@@ -190,14 +190,11 @@ def naf_rows(rnd, count):
         good = 1
         mut = i % 4                 # every 4th line is a correct one, the others break exactly one rule
         if mut == 1 and len(d) > w + 1:
-            # the same value with two adjacent non-zero symbols: x, y -> x + 2, y - 1 ... keep it simple: split a zero pair
+            # the same value with two adjacent non-zero symbols: (x, 0) -> (x - 2, 1) or (x + 2, -1)
             j = next((k for k in range(len(d) - 1) if d[k] != 0 and abs(d[k]) + 2 < (1 << (w - 1)) and d[k + 1] == 0), None)
             if j is not None:
-                d = d[:j] + [d[j] - 2 if d[j] > 0 else d[j] + 2, 1 if d[j] > 0 else -1] + d[j + 2:]
-                if d[j] % 2 == 0:
-                    d = wnaf(a, w)
-                else:
-                    good = 0
+                d = d[:j] + ([d[j] - 2, 1] if d[j] > 0 else [d[j] + 2, -1]) + d[j + 2:]
+                good = 0
         elif mut == 2 and len(d) >= 1:
             d = d + [0]             # a_{l-1} = 0
             good = 0
@@ -207,7 +204,7 @@ def naf_rows(rnd, count):
                 d = d[:-w] + [d[-w] - (1 << (w - 1))] + [0] * (w - 1) + [1]
                 good = 0
         rows.append(dict(fam="py", op="naf", ed="def", W=16, n=L, cls="w=%d" % w, alias="none", w=w, a=l16(a, L),
-                         naf=naf_encode(d, w, 2 * L + 1 + 2), l=len(d), good=good))
+                         naf=naf_encode(d, w, (len(d) + (w - 1) * sum(1 for x in d if x)) // 16 + 2), l=len(d), good=good))
     return rows
 
 
